@@ -294,20 +294,29 @@ def removeFromCaches (n : Id) : DM Unit := do
 
 /-! ### the three mutators -/
 
+/-- the five link assignments of removeChild (child list, the two neighbours, the node's own sibling links) -/
+def unlink (p c : Id) : M Unit := do
+  upd fun h => setKids h p ((h p).kids.erase c)
+  upd fun h => setPrevOpt h (h c).next (h c).prev
+  upd fun h => setNextOpt h (h c).prev (h c).next
+  upd fun h => setNext h c none
+  upd fun h => setPrev h c none
+
+/-- `if self.ownerDocument and oldChild is an element: ….remove_from_caches(oldChild)`, then
+    `_set_owner(oldChild, None)` -/
+def dropFromIndexes (p c : Id) : DM Unit := do
+  if (← rdD fun s => s.owned p && decide ((s.heap c).kind = .elem)) then
+    removeFromCaches c
+  setOwnerRec c false
+
 /-- `p.removeChild(c)` -/
 def removeChild (p c : Id) : DM Unit := do
   if (← rdD fun s => (s.heap p).kind) ≠ .elem then
     raiseD .NotFound                                                         -- Childless.removeChild
   if !(← rdD fun s => decide (c ∈ (s.heap p).kids)) then
     raiseD .NotFound
-  liftH (upd fun h => setKids h p ((h p).kids.erase c))
-  liftH (upd fun h => setPrevOpt h (h c).next (h c).prev)
-  liftH (upd fun h => setNextOpt h (h c).prev (h c).next)
-  liftH (upd fun h => setNext h c none)
-  liftH (upd fun h => setPrev h c none)
-  if (← rdD fun s => s.owned p && decide ((s.heap c).kind = .elem)) then     -- if self.ownerDocument and oldChild is an element:
-    removeFromCaches c                                                       --   self.ownerDocument.remove_from_caches(oldChild)
-  setOwnerRec c false                                                        -- _set_owner(oldChild, None)
+  liftH (unlink p c)
+  dropFromIndexes p c
   liftH (upd fun h => setParent h c none)                                    -- oldChild.parentNode = None
 
 /-- `if c.parentNode is not None: c.parentNode.removeChild(c)` -/
